@@ -179,6 +179,10 @@ class Module:
 
     def function_imports(self, fn: ast.AST) -> dict[str, str]:
         """imports visible in fn: module-level plus those executed inside fn (and enclosing fns)."""
+        cache = self.__dict__.setdefault("_fi_cache", {})
+        hit = cache.get(id(fn))
+        if hit is not None:
+            return hit
         table = dict(self.imports)
         chain = []
         cur: ast.AST | None = fn
@@ -190,6 +194,7 @@ class Module:
             for sub in ast.walk(f):
                 if isinstance(sub, (ast.Import, ast.ImportFrom)):
                     self._record_import(sub, table)
+        cache[id(fn)] = table
         return table
 
     # ------------------------------------------------------------- utilities
